@@ -73,6 +73,31 @@ def doc_headings():
     return out
 
 
+_CARRIERS = {}
+
+
+def _carriers(prog, pat):
+    """local functions from which a call of the primitive `pat` is reachable in the call graph"""
+    key = (id(prog), pat)
+    if key in _CARRIERS:
+        return _CARRIERS[key]
+    cg = prog.callgraph()
+    direct = {g.id for g in prog.fns.values() if g.body is not None and g.crate.prefix == "tsg" and any(is_callee(t, pat) for _b, t in g.body.calls())}
+    rev = {}
+    for a, bs in cg.edges.items():
+        for b in bs:
+            rev.setdefault(b, set()).add(a)
+    seen, work = set(direct), list(direct)
+    while work:
+        x = work.pop()
+        for y in rev.get(x, ()):
+            if y not in seen:
+                seen.add(y)
+                work.append(y)
+    _CARRIERS[key] = seen
+    return seen
+
+
 def run(prog, rep):
     rep.rule("E8.f", "registered stdlib names = documented function headings; documented arity class = extracted parameter protocol")
     table = stdlib_table(prog)
@@ -154,6 +179,58 @@ def run(prog, rep):
             ok = _param_used(body, tr, uses, t, name)
             rep.check(ok, "E8.a", key + " :: parameter #%d coerced" % i, sp_str(t["sp"]), "parameter goes through a type coercion or a total operation",
                       "a parameter of %s is taken but not type-checked" % name)
+    # ---- CORE: the documented operation is on every path to an Ok result
+    rep.rule("C13.CORE", "each stdlib function computes its result with the documented primitive (regex replace_all, slice join, tree-sitter's own accessors …) on every path to an Ok result")
+    CORE = {
+        "replace": [r"regex::Regex::new$", r"regex::Regex::replace_all$"],
+        "join": [r"<impl \[S\]>::join$|<impl \[T\]>::join$|slice::<impl \[\w+\]>::join$|::join$"],
+        "concat": [r"Vec::<T, A>::append$"],
+        "length": [r"Vec::<T, A>::len$"],
+        "is-empty": [r"Vec::<T, A>::is_empty$"],
+        "node": [r"graph::Graph::<'tree>::add_graph_node$"],
+        "source-text": [r"tree_sitter::Node::<'tree>::byte_range$"],
+        "node-type": [r"tree_sitter::Node::<'tree>::kind$"],
+        "start-row": [r"tree_sitter::Node::<'tree>::start_position$"],
+        "start-column": [r"tree_sitter::Node::<'tree>::start_position$"],
+        "end-row": [r"tree_sitter::Node::<'tree>::end_position$"],
+        "end-column": [r"tree_sitter::Node::<'tree>::end_position$"],
+        "named-child-count": [r"tree_sitter::Node::<'tree>::named_child_count$"],
+        "named-child-index": [r"tree_sitter::Node::<'tree>::parent$", r"tree_sitter::Node::<'tree>::named_children$", r"Iterator::position$"],
+        "format": [r"functions::Parameters::finish$"],
+    }
+    cg = prog.callgraph()
+    FIELD = {"start-row": "row", "end-row": "row", "start-column": "column", "end-column": "column"}
+    for name, pats in sorted(CORE.items()):
+        f = impls.get(name)
+        if f is None:
+            continue
+        body, tr = f.body, Tracer(f.body)
+        fails = e2._failure_blocks(body)
+        rets = set(body.return_blocks())
+        for pat in pats:
+            blocks = {b for b, t in body.calls() if is_callee(t, pat)}
+            # ... or a call of a local helper from which the primitive is reachable (helper extraction is not a violation)
+            carriers = _carriers(prog, pat)
+            for (caller, tg), sites in cg.sites.items():
+                if caller == f.id and tg in carriers and tg != f.id:
+                    blocks |= {b for b, _t in sites}
+            if name in VARIADIC:
+                lp = [(h, bl) for h, bl in natural_loops(body) if blocks & bl]
+                ok = bool(lp) and not cycle_avoiding(body, lp[0][0], lp[0][1], blocks)
+            else:
+                ok = bool(blocks) and not (body.reach_from([0], avoid=blocks | fails) & rets)
+            rep.check(ok, "C13.CORE", "%s :: %s" % (name, pat.split("::")[-1].rstrip("$")), f.loc(), "on every path to an Ok result",
+                      "%s can return a result without going through %s (a shortcut or re-implementation replaces the documented primitive)" % (name, pat.split("|")[0].rstrip("$")))
+        if name in FIELD:
+            oks = [canon(tr.operand(st["rv"]["ops"][0])) for b in sorted(body.reachable()) for st in body.blocks[b]["stmts"]
+                   if st["k"] == "assign" and st["rv"]["k"] == "aggregate" and st["rv"].get("adt") == "std::result::Result" and st["rv"].get("variant") == "Ok"]
+            want_pos = "Node::start_position(" if name.startswith("start") else "Node::end_position("
+            good = len(oks) == 1 and re.search(r"\.%s\)\}$" % FIELD[name], oks[0]) is not None and want_pos in oks[0] and "graph::Value::Integer{" in oks[0]
+            rep.check(good, "C13.CORE", "%s :: field" % name, f.loc(), "Integer(node.%s_position().%s)" % (name.split("-")[0], FIELD[name]), "%s returns %s" % (name, oks))
+    # no alternative string-replacement primitive in replace
+    if "replace" in impls:
+        alt = [callee_fn(t)["def"] for b, t in impls["replace"].body.calls() if is_callee(t, r"str::<impl str>::(replace|replacen|replace_range)$", r"regex::Regex::(replace|replacen)$")]
+        rep.check(not alt, "C13.CORE", "replace :: no other replacement primitive", impls["replace"].loc(), "only Regex::replace_all", "replace also uses %s (different treatment of `$` in the replacement)" % alt)
     # ---- A: arithmetic on DSL integers
     rep.rule("C13.A", "arithmetic on DSL integers (u32) in stdlib functions is checked: no `+`/`-`/`*` with a debug overflow assertion or silent wrap-around")
     na = 0
